@@ -19,7 +19,7 @@ func init() {
 			"the handler adds the files in list order and the public-key pseudo file after the loop; APPEND every file whose records depend on another file is only ever written append-1 (one Write per whole record, C05), and every operation writes the record it depends on before it enables a dependent one " +
 			"(authorization appended before the device can report, key written before any authorization is accepted: C06/C07 ORDER rules) - these are the premises of the README's argument that reading dependents first yields a dependency-closed, record-aligned snapshot; " +
 			"SECRET the zip writer receives bytes only from (a) files named by ranging over PublicFiles, which does not contain server.keys, (b) the first result (public half) of the key loader, never the private half or the key file's tail, and (c) the constant README; " +
-			"LIMIT the rate-limit test dominates the creation of the archive and uses the limiter constructed from apiArchiveLimit/apiArchiveRate (positive constants in every configuration; the limiter itself is C19). " +
+			"LIMIT the rate-limit test dominates the creation of the archive and uses the limiter constructed from apiArchiveLimit/apiArchiveRate (positive constants in every configuration), and the structural rules of the limiter itself (C19: expiry keeps exactly the timestamps inside the window, admission iff fewer than the limit remain, all under its mutex) are re-run here. " +
 			"NOT decided: atomicity of a single write(2) against a concurrent read(2) (operating system, trusted); actual interleavings of writers with the archive loop.",
 		Assumptions: append([]string{"an O_APPEND write of one buffer and a concurrent read see either none or all of the record (README: File Writing and Archiving)"}, baseAssumptions...),
 		Run:         runC14,
@@ -146,6 +146,19 @@ func runC14(c *an.Ctx) {
 					okPath = true
 				}
 			}
+			// the archive entry is fed by the opened file itself (read to EOF by the zip helper):
+			// a wrapped, limited or offset reader would cut the entry at a point that is not a record boundary
+			whole := rt.K == an.KExt && rt.S == "0" && rt.A[0].Callee() == "os.Open"
+			fullCopy := false
+			zfi := p.Info(zipAdd)
+			for _, zb := range zipAdd.Blocks {
+				for _, zin := range zb.Instrs {
+					if zc, ok := zin.(*ssa.Call); ok && an.CalleeName(&zc.Call) == "io.Copy" && zfi.Term(zc.Call.Args[1]).Key() == zfi.Term(zipAdd.Params[1]).Key() {
+						fullCopy = true
+					}
+				}
+			}
+			c.Check(whole && fullCopy, "PREFIX", fn, call.Pos(), key+":whole-file", "the archive entry of a public file is everything read from the opened file up to EOF (io.Copy of the *os.File itself): with append-only writers that is a record-aligned prefix; no limiting or offset reader is interposed", "reader "+short(rt.Key()))
 			c.Check(okName && okPath && len(p.CallSites(fn)) > 0, "SECRET", fn, call.Pos(), key+":file", "a file is copied into the archive only under baseDir/<name> with <name> taken from ranging over PublicFiles", "name argument at the call sites and path components")
 		case strings.Contains(rt.Key(), "bytes.NewReader"):
 			addPub = fn
@@ -311,4 +324,6 @@ func runC14(c *an.Ctx) {
 		}
 		c.Check(okCtor, "LIMIT", ctor, ctor.Pos(), an.KeyOf(ctor, "limiter-constructed"), "the archive limiter is constructed from the configured constants", "glow.NewRateLimiter(const, const)")
 	}
+	// the limiter's own sliding-window rules (owned by C19) are a premise of "no more than the configured number per window": re-run
+	runC19(c)
 }
